@@ -10,9 +10,11 @@ import (
 
 	"github.com/256dpi/gomqtt/packet"
 	"github.com/256dpi/gomqtt/session"
+
+	"verifh/hx"
 )
 
-func init() { commands["c18"] = runC18 }
+func main() { hx.Main(map[string]func(*hx.Ctx){"c18": runC18}) }
 
 type sopT struct {
 	kind byte // N S L D A R
@@ -35,7 +37,7 @@ func (o sopT) text() string {
 	case 'R':
 		return "R"
 	case 'S':
-		return "S" + dirc(o.dir) + "=" + pktText(o.pkt)
+		return "S" + dirc(o.dir) + "=" + hx.PktText(o.pkt)
 	case 'L':
 		return fmt.Sprintf("L%s=%d", dirc(o.dir), o.id)
 	case 'D':
@@ -58,7 +60,7 @@ func applySop(s *session.MemorySession, o sopT) string {
 		return "u"
 	case 'L':
 		p, _ := s.LookupPacket(o.dir, o.id)
-		return "p=" + pktText(p)
+		return "p=" + hx.PktText(p)
 	case 'D':
 		_ = s.DeletePacket(o.dir, o.id)
 		return "u"
@@ -66,7 +68,7 @@ func applySop(s *session.MemorySession, o sopT) string {
 		ps, _ := s.AllPackets(o.dir)
 		var parts []string
 		for _, p := range ps {
-			parts = append(parts, pktText(p))
+			parts = append(parts, hx.PktText(p))
 		}
 		return "a=" + strings.Join(parts, "/")
 	}
@@ -102,27 +104,27 @@ func c18Alphabet(ids []packet.ID, rich bool) []sopT {
 // c18Window evaluates the property directly on the implementation: 65535
 // consecutive allocations from state s are non-zero and pairwise distinct,
 // and a reset restarts at 1.
-func c18Window(c *ctx, s int) {
+func c18Window(c *hx.Ctx, s int) {
 	ctr := session.NewIDCounterWithNext(packet.ID(s))
 	seen := make([]bool, 65536)
 	for k := 0; k < 65535; k++ {
 		id := ctr.NextID()
 		if id == 0 {
-			c.emit("direct window start=%d FAIL zero id at allocation %d", s, k)
+			c.Emit("direct window start=%d FAIL zero id at allocation %d", s, k)
 			return
 		}
 		if seen[id] {
-			c.emit("direct window start=%d FAIL id %d repeated at allocation %d", s, id, k)
+			c.Emit("direct window start=%d FAIL id %d repeated at allocation %d", s, id, k)
 			return
 		}
 		seen[id] = true
 	}
 	ctr.Reset()
 	if id := ctr.NextID(); id != 1 {
-		c.emit("direct window start=%d FAIL first id after Reset is %d", s, id)
+		c.Emit("direct window start=%d FAIL first id after Reset is %d", s, id)
 		return
 	}
-	c.emit("direct window start=%d ok", s)
+	c.Emit("direct window start=%d ok", s)
 }
 
 func c18ParseOp(t string) sopT {
@@ -138,30 +140,30 @@ func c18ParseOp(t string) sopT {
 	case 'A':
 		return sopT{kind: 'A', dir: d(t[1])}
 	case 'S':
-		return sopT{kind: 'S', dir: d(t[1]), pkt: pktParse(t[3:])}
+		return sopT{kind: 'S', dir: d(t[1]), pkt: hx.PktParse(t[3:])}
 	case 'L', 'D':
-		return sopT{kind: t[0], dir: d(t[1]), id: packet.ID(atoi(t[3:]))}
+		return sopT{kind: t[0], dir: d(t[1]), id: packet.ID(hx.Atoi(t[3:]))}
 	}
 	panic("bad op " + t)
 }
 
-func c18Replay(c *ctx) {
-	for _, line := range readLines(c.replay) {
+func c18Replay(c *hx.Ctx) {
+	for _, line := range hx.ReadLines(c.Replay) {
 		f := strings.Fields(line)
 		if len(f) == 0 {
 			continue
 		}
 		switch f[0] {
 		case "ctr":
-			s := atoi(f[1])
+			s := hx.Atoi(f[1])
 			ctr := session.NewIDCounterWithNext(packet.ID(s))
 			id1 := ctr.NextID()
 			id2 := ctr.NextID()
-			c.emit("ctr %d %d %d", s, id1, id2)
+			c.Emit("ctr %d %d %d", s, id1, id2)
 			c18Window(c, s)
 		case "direct":
 			if len(f) > 2 && strings.HasPrefix(f[2], "start=") {
-				c18Window(c, atoi(f[2][6:]))
+				c18Window(c, hx.Atoi(f[2][6:]))
 			}
 		case "hist":
 			s := session.NewMemorySession()
@@ -169,34 +171,34 @@ func c18Replay(c *ctx) {
 			for _, t := range f[2:] {
 				rt = append(rt, applySop(s, c18ParseOp(t)))
 			}
-			c.emit("%s", line)
-			c.emit("impl %s %s", f[1], strings.Join(rt, " "))
+			c.Emit("%s", line)
+			c.Emit("impl %s %s", f[1], strings.Join(rt, " "))
 		}
 	}
 }
 
-func runC18(c *ctx) {
-	if c.replay != "" {
+func runC18(c *hx.Ctx) {
+	if c.Replay != "" {
 		c18Replay(c)
 		return
 	}
 	// direct evaluation of the counter clauses on the implementation
 	starts := []int{0, 1, 2, 255, 256, 32767, 32768, 65534, 65535}
 	for i := 0; i < 16; i++ {
-		starts = append(starts, c.rng.Intn(65536))
+		starts = append(starts, c.Rng.Intn(65536))
 	}
 	for _, s := range starts {
 		c18Window(c, s)
 	}
-	c.stat("direct_windows", len(starts))
+	c.Stat("direct_windows", len(starts))
 	// T-exh: every one of the 65536 counter states
 	for s := 0; s < 65536; s++ {
 		ctr := session.NewIDCounterWithNext(packet.ID(s))
 		id1 := ctr.NextID()
 		id2 := ctr.NextID()
-		c.emit("ctr %d %d %d", s, id1, id2)
+		c.Emit("ctr %d %d %d", s, id1, id2)
 	}
-	c.stat("counter_states", 65536)
+	c.Stat("counter_states", 65536)
 	// reset from every 256th state
 	n := 0
 	emitHist := func(ops []sopT, probe bool) {
@@ -222,17 +224,17 @@ func runC18(c *ctx) {
 			ot = append(ot, o.text())
 			rt = append(rt, applySop(s, o))
 		}
-		c.emit("hist %d %s", n, strings.Join(ot, " "))
-		c.emit("impl %d %s", n, strings.Join(rt, " "))
+		c.Emit("hist %d %s", n, strings.Join(ot, " "))
+		c.Emit("impl %d %s", n, strings.Join(rt, " "))
 		if n%997 == 3 {
-			c.sample("hist " + strings.Join(ot, " ") + " => " + strings.Join(rt, " "))
+			c.Sample("hist " + strings.Join(ot, " ") + " => " + strings.Join(rt, " "))
 		}
 		n++
 	}
 	// bounded-exhaustive histories over a small universe, all queries after each
 	depth := 3
 	al := c18Alphabet([]packet.ID{1, 2}, false)
-	if c.thorough() {
+	if c.Thorough() {
 		depth = 4
 	}
 	var rec func(prefix []sopT, d int)
@@ -248,9 +250,9 @@ func runC18(c *ctx) {
 	for d := 1; d <= depth; d++ {
 		rec(nil, d)
 	}
-	c.stat("exhaustive_histories", n)
-	c.stat("exhaustive_depth", depth)
-	c.stat("alphabet", len(al))
+	c.Stat("exhaustive_histories", n)
+	c.Stat("exhaustive_depth", depth)
+	c.Stat("alphabet", len(al))
 	// all 14 types, ids around the boundaries, length-2 histories over the rich alphabet
 	rich := c18Alphabet([]packet.ID{1, 65535}, true)
 	before := n
@@ -259,23 +261,23 @@ func runC18(c *ctx) {
 			emitHist([]sopT{a, b}, true)
 		}
 	}
-	c.stat("rich_histories", n-before)
+	c.Stat("rich_histories", n-before)
 	// random long histories
 	before = n
 	nr := 300
-	if c.thorough() {
+	if c.Thorough() {
 		nr = 5000
 	}
 	al3 := c18Alphabet([]packet.ID{1, 2, 3}, true)
 	for i := 0; i < nr; i++ {
-		l := 5 + c.rng.Intn(200)
+		l := 5 + c.Rng.Intn(200)
 		ops := make([]sopT, l)
 		for j := range ops {
-			ops[j] = al3[c.rng.Intn(len(al3))]
+			ops[j] = al3[c.Rng.Intn(len(al3))]
 		}
 		emitHist(ops, true)
 	}
-	c.stat("random_histories", n-before)
+	c.Stat("random_histories", n-before)
 	// concurrent allocation: ids handed out to 2..16 goroutines from a start state near the wrap
 	conc := 0
 	for _, g := range []int{2, 3, 4, 8, 16} {
@@ -305,9 +307,9 @@ func runC18(c *ctx) {
 			for _, id := range all {
 				fmt.Fprintf(&sb, " %d", id)
 			}
-			c.emit("conc %d %d%s", start, len(all), sb.String())
+			c.Emit("conc %d %d%s", start, len(all), sb.String())
 			conc++
 		}
 	}
-	c.stat("concurrent_runs", conc)
+	c.Stat("concurrent_runs", conc)
 }
